@@ -386,7 +386,25 @@ func (g G) planSSO(prop string) *Plan {
 	if prop == "C06" {
 		o.devPct, o.tamperPct, o.timePct = 55, 15, 45
 	}
-	return g.planMix(prop, o)
+	if prop == "C05" {
+		o.faultPcts = []int{0, 0, 0, 12}
+	}
+	p := g.planMix(prop, o)
+	if prop == "C05" {
+		// replay: the untampered message is delivered (and answered) first, the tampered copy with the very same signature afterwards
+		var out []Step
+		for i := range p.Steps {
+			st := p.Steps[i]
+			if m := st.Msg; st.K == "send" && m != nil && m.Kind == "sso" && m.Sign != "" && len(m.Tamper) > 0 && g.chance(fmt.Sprintf("replayfirst%d", i), 35) {
+				orig := *m
+				orig.Tamper, orig.Method, orig.DelayNs, orig.DelayAnchor = nil, "", 0, ""
+				out = append(out, Step{K: "send", Msg: &orig}, Step{K: "finish", Pick: 99})
+			}
+			out = append(out, st)
+		}
+		p.Steps = out
+	}
+	return p
 }
 
 func (g G) planC07() *Plan {
@@ -395,5 +413,22 @@ func (g G) planC07() *Plan {
 			endpointVariety: true, customAttrs: true, sloVariety: true, acsSupportedVariety: true},
 		wSSO: 40, wSLO: 20, wAttrQ: 20, wCallback: 5, wMeta: 2, wResume: 25, wFinish: 12, wComplete: 4, wAdvance: 3,
 		timePct: 20, hostVariety: true, minSteps: 3, maxSteps: 30, maxPre: 1, autoFinishPct: 40, callbackAfter: 30}
-	return g.planMix("C07", o)
+	p := g.planMix("C07", o)
+	for i := range p.Steps {
+		m := p.Steps[i].Msg
+		if m == nil {
+			continue
+		}
+		lab := fmt.Sprintf("c07.%d", i)
+		// bodies may legally arrive in small pieces
+		if (m.Kind == "attrq" || m.Binding == "post") && g.chance(lab+".short", 30) {
+			m.BodyFault, m.BodyOff = "short", g.intn(lab+".shortk", 7)
+		}
+		// RelayState is opaque to the IdP: return URLs, key=value pairs, base64 padding, blanks
+		if (m.Kind == "sso" || m.Kind == "slo") && g.chance(lab+".relay", 35) {
+			m.HasRelay = true
+			m.RelayState = g.pick(lab+".relayv", "https://sp.example/return?a=1&b=2", "k=v;x=y", "a+b@c,d$e", "dGVzdA==", "two words", "tab=2&lang=de", "ümlaut/é", "a:b", "~._-!*'()")
+		}
+	}
+	return p
 }
